@@ -41,6 +41,50 @@ func verifControlFieldsBad[T any](in any) map[string]T {
 	return out
 }
 
+// REFL-2 must fire: one scratch slice shared by all keys
+func verifControlArraysBad[T any](in any) map[string][]T {
+	view := reflect.ValueOf(in)
+	viewType := view.Type()
+	out := make(map[string][]T)
+	var scratch []T
+	for i := 0; i < viewType.NumField(); i++ {
+		f := view.Field(i)
+		if f.Kind() != reflect.Slice {
+			continue
+		}
+		scratch = scratch[:0]
+		for j := 0; j < f.Len(); j++ {
+			if e, ok := f.Index(j).Interface().(T); ok {
+				scratch = append(scratch, e)
+			}
+		}
+		out[viewType.Field(i).Name] = scratch
+	}
+	return out
+}
+
+// REFL-2 must stay silent: pre-sized slice per field
+func verifControlArraysGood[T any](in any) map[string][]T {
+	view := reflect.ValueOf(in)
+	viewType := view.Type()
+	out := make(map[string][]T)
+	n := viewType.NumField()
+	for i := 0; i < n; i++ {
+		f := view.Field(i)
+		if f.Kind() != reflect.Slice {
+			continue
+		}
+		elems := make([]T, 0, f.Len())
+		for j := 0; j < f.Len(); j++ {
+			if e, ok := f.Index(j).Interface().(T); ok {
+				elems = append(elems, e)
+			}
+		}
+		out[viewType.Field(i).Name] = elems
+	}
+	return out
+}
+
 // must stay silent: hoisted bound, switch instead of if/continue
 func verifControlFieldsGood[T any](in any) map[string]T {
 	view := reflect.ValueOf(in)
@@ -422,6 +466,21 @@ func runControls(c *props.Ctx, sp *ssa.Package, fns []*ssa.Function, ci *flow.Ca
 			v = ob.Violation
 		}
 		c.R.Control("REFL-1", "control:good", reflControlFile, v, ob.Holds, strings.Join(append(rg.fired["REFL-1"], rg.und["REFL-1"]...), "; "))
+		if rsp.Func("verifControlArraysBad") != nil {
+			ab, ag := newCtl(), newCtl()
+			(&proto{c: c, rep: ab}).reflHelper(rsp.Func("verifControlArraysBad"))
+			(&proto{c: c, rep: ag}).reflHelper(rsp.Func("verifControlArraysGood"))
+			v := ob.Holds
+			if len(ab.fired["REFL-2"]) > 0 {
+				v = ob.Violation
+			}
+			c.R.Control("REFL-2", "control:bad", reflControlFile, v, ob.Violation, "a scratch slice shared by all keys must be reported")
+			v = ob.Holds
+			if len(ag.fired["REFL-2"])+len(ag.und["REFL-2"])+len(rg.fired["REFL-2"]) > 0 || ag.held["REFL-2"] == 0 {
+				v = ob.Violation
+			}
+			c.R.Control("REFL-2", "control:good", reflControlFile, v, ob.Holds, strings.Join(append(ag.fired["REFL-2"], rg.fired["REFL-2"]...), "; "))
+		}
 	}
 	var extra []string
 	for r, f := range good.fired {
